@@ -211,6 +211,8 @@ package css
 //@   ensures[F,C08] @eof-closed: result == ErrorGrammar && p.err == "" ==> len(p.state) == 1
 
 //@ func Parser.parseDeclarationList
+//@   loop * candidate p.tt != CommentToken
+//@   loop * invariant old(p.tt) != SemicolonToken && old(p.tt) != CommentToken ==> p.tt == old(p.tt)
 //@   loop * candidate len(p.state) == old(len(p.state))
 //@   loop * candidate p.prevEnd == old(p.prevEnd)
 //@   loop * candidate forall(i, 0, len(p.state), p.state[i] == old(p.state[i]))
